@@ -30,6 +30,8 @@ CONFIGS = ["fs", "fs+4KiB", "fs+1MiB+meta"]
 
 
 def cases(tier, seed):
+    if tier in ("thorough",):
+        yield {"kind": "repo_tests"}
     n, length = (300, 25) if tier == "quick" else (10000, 40)
     for i in range(n):
         yield {"seed": seed, "idx": i, "length": length, "config": CONFIGS[i % 3]}
@@ -51,6 +53,10 @@ def content_bytes(plain, memento):
 
 
 def run_case(case):
+    if case.get("kind") == "repo_tests":
+        from vf import repotests
+
+        return repotests.as_case_result(repotests.run_suite_with_monitors(), "C07", "content_keys_rehashed")
     out = {"viol": [], "nontrivial": [], "obs": collections.Counter(), "sets": {"content_hashes": set()}}
     rng = core.rng_for(case["seed"], ID, case["idx"])
     ovr_heavy = rng.random() < 0.5
